@@ -38,9 +38,23 @@ TRUSTED = [
     "elapsed real time is outside the model: 'non-zero only after the full timeout' is judged on the real library with its "
     "own clock (dispatch_time(NOW,0) >= deadline at return)",
     "a DISPATCH_CLIENT_CRASH is modelled as the thread stopping (a superset of the behaviours of a process that dies)",
+    "of the obligations, 8 are single-step unfoldings of tstep / gstep without a reachability hypothesis (C19_leave_iff_increment_"
+    "returns_1, _wait_nonzero_only_by_timeout, _wait_returns_group_result, _wait_way_out_keeps_other_bits, _cancel_while_running_"
+    "not_interrupted, _no_thread_moves_another, _cancel_sets_bit, _testcancel_monotone): readings of the model, true by "
+    "construction; they carry weight only through the ties (site lists, per-thread conformance, whole-round replay).  The "
+    "group's wait / notify semantics (answer 0 only at count zero, non-zero only for a finite timeout, each notification "
+    "submitted exactly once, at registration if the count is zero else by the leave that reaches zero) are imported from C07 "
+    "by fiat, including the elapsed-time half of the timeout clause that C07 does not prove (judged here on the real library "
+    "with its own clock)",
+    "end of life: the release of the last reference and the destructor of the private data (src/block.cpp) are modelled; "
+    "the release step assumes the client contract (it IS the last reference: nobody inside a call, nothing queued), enforced "
+    "in the model by `active s = []` and `pendsub s = 0`; an object destroyed without ever having been performed leaves its "
+    "group and its notifications are submitted with no completion (library behaviour, outside block.h's documented contract "
+    "'observed ... and executed once'; exercised by the harness's dispose rounds)",
 ]
 ASSUMPTIONS = ["client contract of block.h: a block object that is waited for / observed is not run more than once; the "
-               "object stays referenced while any call is in flight (destructor not modelled)",
+               "object stays referenced while any call is in flight and while a submission is queued (the release of the last "
+               "reference, which runs the destructor, is enabled in the model only then)",
                "fair scheduling for the 'completes for waiters and notifiers' clauses (the theorems show the completion steps "
                "are the only enabled steps of the invoking thread, not when they are scheduled)"]
 
@@ -671,6 +685,18 @@ def correspond(ctx):
                                  "with the recorded observation, latent steps inserted with the model's values; final model state "
                                  "= recorded final state, inv_b true)", "detail": d})
     total.update(rp)
+    # standing negative tests of the replay (Proofs/BlockR_proofs.v neg*_qs): inconsistent rounds must be refused
+    ok, vals, raw = driver.coq_eval("c19_negative", IMPORTS + ["BlockR", "Block_proofs", "BlockR_proofs"],
+                                    "Eval vm_compute in [nth 1 (replay false 8 neg1_qs [8; 8]) 0; "
+                                    "nth 1 (replay false 8 neg2_qs [7; 7; 7; 11; 11; 11]) 0; "
+                                    "nth 1 (replay false 8 neg3_qs [6; 6; 6; 5; 5; 5; 5; 5; 5]) 0; "
+                                    "nth 1 (replay false 8 neg4_qs [11; 11; 11; 11; 11]) 0].\n")
+    left = driver.ints(vals[0]) if ok and vals else []
+    total["negative_replay_tests_refused"] = "%d/4" % sum(1 for x in left if x > 0)
+    if len(left) != 4 or any(x == 0 for x in left):
+        mism.append({"what": "the global replay reproduced a round that no run of the model explains (standing negative tests: "
+                             "testcancel non-zero without cancel, worker skipping the body without cancel, body after a returned "
+                             "cancel, invocation without submission)", "detail": {"left_over": left, "coq": raw[-500:]}})
     # misuse scenarios: the model's crash branches against the library's DISPATCH_CLIENT_CRASH
     cmism, cseen, cstats = crash_scenarios()
     mism += cmism
